@@ -216,7 +216,7 @@ class Walker:
                     ctx.violation('I3-operator-gain', f'{node.uid}: operator gain {user_gain} dB became '
                                   f'{node.effective_gain:.6f} dB (expected {exp:.6f}: kept unless total power '
                                   f'{pout:.3f} dBm exceeds p_max {p_max})')
-            elif not auto_voa:
+            else:
                 base_voa = user_voa if user_voa else 0.0
                 if user_dp is not None:
                     dp0, tie = user_dp, False
@@ -239,8 +239,36 @@ class Walker:
                     exp_dp = min(dp0, limit)
                     if exp_dp < dp0:
                         ctx.count('power_reductions_seen')
-                    ctx.maxstat('i2_offset_dev_db', abs(dp - exp_dp))
-                    if abs(dp - exp_dp) > 1e-9:
+                    judged = True
+                    if auto_voa:
+                        # the design chooses the output VOA: the headroom to p_max / flat-max gain, rounded to the VOA
+                        # step, minus the margin; offset and gain are raised by it so that the power after the VOA
+                        # is the rule value
+                        vstep, vmargin = self.span.get('voa_step', 0.5), self.span.get('voa_margin', 1)
+                        gain_base = loss + exp_dp - (prev_dp - prev_voa) + in_voa
+                        head = min(p_max - (pref_total + dp0), eqa.gain_flatmax - gain_base)
+                        hv, vtie = round_step(head, vstep)
+                        dstep = self.span['delta_power_range_db'][2]
+                        if vtie or abs(round(vstep, 1) - vstep) > 1e-12 or \
+                                (kind == 'rule' and abs(round(dstep, 1) - dstep) > 1e-12):
+                            # (steps that are not multiples of 0.1 are coarsened: listed finding, judged on the
+                            # amplifiers without automatic VOA)
+                            ctx.skip('automatic-voa-on-rounding-tie-or-coarsened-step')
+                            judged = False
+                        else:
+                            voa_exp = max(hv - vmargin, 0.0)
+                            exp_dp = exp_dp + voa_exp
+                            ctx.count('i2_auto_voa_checks')
+                            if voa_exp > 0:
+                                ctx.count('auto_voa_positive')
+                            if abs(voa - voa_exp) > 1e-9:
+                                ctx.violation('I2-auto-voa', f'{node.uid}: automatic output VOA {voa} dB, expected '
+                                              f'{voa_exp:.4f} (headroom {head:.4f}, step {vstep}, margin {vmargin})',
+                                              {'variety': node.params.type_variety})
+                                judged = False
+                    if not judged:
+                        pass
+                    elif abs(dp - exp_dp) > 1e-9:
                         lo, hi, step = self.span['delta_power_range_db']
                         mech = None
                         if kind == 'rule' and abs(round(step, 1) - step) > 1e-12 and round(step, 1) >= 0.01:
@@ -259,8 +287,6 @@ class Walker:
                                       mechanism=mech)
                     if user_voa is not None and abs(voa - user_voa) > 1e-12:
                         ctx.violation('I2-user-voa', f'{node.uid}: operator output VOA {user_voa} became {voa}')
-            else:
-                ctx.skip('automatic-output-voa-model')
             prev_dp = dp if not auto_voa else dp - voa
             prev_voa = voa if not auto_voa else 0.0
         if amps >= 2:
@@ -360,6 +386,11 @@ def build_inputs(rng, kind):
                 e['p_max'] = G.pick(rng, [16, 17, 18])
         ej['SI'][0]['power_dbm'] = G.pick(rng, [1, 2, 3])
         ej['SI'][0]['use_si_channel_count_for_design'] = True
+    if rng.random() < 0.3:
+        # amplifier types whose output VOA is chosen by the design (no stock library entry has it)
+        for e in ej['Edfa']:
+            if e['type_variety'] in ('std_medium_gain', 'std_low_gain', 'std_high_gain') and rng.random() < 0.6:
+                e['out_voa_auto'] = True
     tj, _ = G.gen_topology(rng, max_sites=4, max_spans=3, per_degree=rng.random() < 0.4, lumped=rng.random() < 0.2,
                            amp_varieties=['std_medium_gain', 'std_low_gain', 'std_high_gain', 'std_fixed_gain',
                                           'high_detail_model_example', 'operator_model_example'], max_km=140)
